@@ -450,7 +450,7 @@ def model_checking(tier, box):
                                              "got %s %s" % (r.violated, r.error))
                     results[cfg] = "JoinReturns violated as predicted (%d states)" % r.distinct
                 else:
-                    r = tlc_retry("Dispatcher", cfg, timeout=1700, workers=2)
+                    r = tlc_retry("Dispatcher", cfg, timeout=2700, workers=2)
                     vlib.require_model_ok(r, "Dispatcher/" + cfg)
                     results[cfg] = r
         except BaseException as e:      # noqa: B902
